@@ -242,6 +242,15 @@ class EncodeState:
 
             raw_value = float(internal_value)
 
+        if isinstance(raw_value, bytes) and 8 * len(raw_value) < bit_length:
+            # byte fields and strings must fill the space allotted to
+            # them. (bitstruct would either raise an exception of its
+            # own or silently pad the value.)
+            odxraise(
+                f"The value '{internal_value!r}' is too short to be encoded using "
+                f"{bit_length} bits.", EncodeError)
+            raw_value += b'\x00' * (bit_length // 8 - len(raw_value))
+
         # If the bit length is zero, encode an empty value
         if bit_length == 0:
             self.emplace_bytes(b'')
